@@ -569,13 +569,17 @@ class Resolver:
             v = fi.cls.lookup_attr(expr.attr)
             if isinstance(v, ast.Dict):
                 out = []
-                for x in v.values:
-                    c = p.resolve_class_expr(x, fi.module, fi.cls)
-                    if c is None:
-                        return None
-                    out.append(c)
-                # Xfrm.payload_types.update({...}) extends the inherited dict
-                for k in self.subclasses(fi.cls) + fi.cls.mro():
+                # the attribute as defined by the class, its bases and its subclasses (a classmethod of
+                # NetlinkProtocol runs with cls = Xfrm), plus `X.update({...})` extensions in class bodies
+                for k in [fi.cls] + [c for c in fi.cls.mro() if c is not fi.cls] + self.subclasses(fi.cls):
+                    dv = k.attrs.get(expr.attr)
+                    if isinstance(dv, ast.Dict):
+                        for x in dv.values:
+                            c = p.resolve_class_expr(x, k.module, k)
+                            if c is None:
+                                return None
+                            if c not in out:
+                                out.append(c)
                     for st in k.node.body:
                         if (isinstance(st, ast.Expr) and isinstance(st.value, ast.Call)
                                 and isinstance(st.value.func, ast.Attribute) and st.value.func.attr == 'update'
